@@ -129,7 +129,7 @@ class Shard:
         self.cases = cases
 
 
-SHARD_CAP = 3000
+SHARD_CAP = 1500
 
 
 class Workspace:
